@@ -66,6 +66,9 @@ InOf(e) ==
                                IF e.hdrs[1].q = 40 THEN "a2" ELSE IF e.robjs[1].ix = 1 THEN "a" ELSE "b", "")
                       [] e.fc = 2 /\ Len(e.robjs) = 1 /\ e.robjs[1].g = 80 /\ e.robjs[1].ix = 7
                            /\ e.robjs[1].val = "0" -> req("write_rst", {}, "", "")
+                      [] e.fc = 2 /\ Len(e.robjs) = 2 /\ e.robjs[1].g = 80 /\ e.robjs[2].g = 80 /\ e.robjs[1].val = "0"
+                           /\ e.robjs[2].val = "0" /\ {e.robjs[1].ix, e.robjs[2].ix} = {4, 7} ->
+                           req("write2", {}, IF e.robjs[1].ix = 4 THEN "bg" ELSE "gb", "reject")
                       [] OTHER -> [k |-> "?"]
       [] OTHER -> [k |-> "?"]
 
@@ -129,6 +132,7 @@ BiPt(ix, cls)    == [ty |-> "bi", ix |-> ix, cls |-> cls, esz |-> 9, ssz |-> 1, 
 Pts_os2_cap1 == <<OsPt(0, 1, 130), OsPt(1, 2, 130)>>
 Pts_os2_cap2 == <<OsPt(0, 1, 100), OsPt(1, 2, 100)>>
 Pts_mixed    == <<BiPt(0, 2), OsPt(0, 1, 130)>>   \* class 0 reports in type order
+Pts_os_big   == <<BiPt(0, 2), OsPt(0, 1, 250)>>   \* an octet string larger than a 249-byte fragment
 EvMax_os2    == <<0, 0, 0, 0, 0, 0, 0, 2>>
 EvMax_os1    == <<0, 0, 0, 0, 0, 0, 0, 1>>
 EvMax_mixed  == <<2, 0, 0, 0, 0, 0, 0, 2>>
